@@ -58,38 +58,77 @@ def check(R, F):
     # the walk is entered on every other path (unchecked, or inside the zone)
     li = F.fn(Z + 'lookup_impl')
     recursive = any(callee_name(t) == li.gpath for b_, t in li.calls())
+    # The walk's state is (node, level, at_apex).  Recursive form: the parameters arg1 / arg3 / arg5, the step is the
+    # self-call.  Iterative form: mutable locals initialised from those parameters at entry, the step is the one later
+    # assignment to each of them, followed by the back edge.  The same conditions are required of both; `T` rewrites the
+    # parameter names into the names the state has in the form at hand.
+    state, steps = {}, {}
     if not recursive:
-        # the rules below read the walk off the recursive form (state = the parameters, step = the self-call); a walk
-        # rewritten as a loop over mutable locals is a different program shape that they do not decide
-        R.bad('walk', li.gpath + '|form', li.where(), 'lookup_impl does not call itself: the walk is not in the recursive form these rules decide: shape not recognised')
+        for k in (1, 3, 5):
+            for l, ds in li.defs().items():
+                ds = [d for d in ds if not li.blocks[d[0]]['cleanup']]
+                if l <= li.argc or len(ds) != 2 or not li.locals[l]['name']:
+                    continue
+                init = [d for d in ds if d[0] == 0 and d[2] == 'assign' and d[3]['rv']['k'] == 'use' and paths.show_operand(li, d[3]['rv']['op']) == 'arg%d' % k]
+                rest = [d for d in ds if d not in init]
+                if len(init) == 1 and len(rest) == 1 and rest[0][2] == 'assign':
+                    state[k] = 'var:%s' % li.locals[l]['ty']
+                    steps[k] = rest[0]
+    form_ok = recursive or set(state) == {1, 3, 5}
+    if not form_ok:
+        R.bad('walk', li.gpath + '|form', li.where(), 'lookup_impl neither calls itself nor keeps node / level / at_apex in three locals that are initialised from its parameters and reassigned once: shape not recognised')
     else:
+        def T(x):
+            if isinstance(x, list):
+                return [T(y) for y in x]
+            return re.sub(r'\barg([135])\b', lambda m: state.get(int(m.group(1)), m.group(0)), x)
         rs = returns(li)
         ref = [r for r in rs if r[1] == 'Referral']
-        ok = len(ref) == 1 and paths.guards_equiv(ref[0][3], ['arg5 in [0]', 'arg4 in [0]', 'discr(RrsetList::lookup(arg1.data.rrsets,Type(2_u16))) in [1]'])
+        ok = len(ref) == 1 and paths.guards_equiv(ref[0][3], T(['arg5 in [0]', 'arg4 in [0]', 'discr(RrsetList::lookup(arg1.data.rrsets,Type(2_u16))) in [1]']))
         R.require(ok, 'referral', li.gpath + '|condition', li.where(ref[0][0]) if ref else li.where(), 'Referral iff !at_apex && !search_below_cuts && NS RRset at this node', 'Referral is returned under %s' % (ref[0][3] if ref else None))
         if ref:
             txt = ref[0][2][0]
-            R.require('arg1.name' in txt and 'RrsetList::lookup(arg1.data.rrsets,Type(2_u16))' in txt, 'referral', li.gpath + '|names-this-node', li.where(ref[0][0]), 'child_zone = this node\'s name, ns_rrset = this node\'s NS RRset', 'the referral is built from %s' % txt)
-        lvl = [b for b, bl in enumerate(li.blocks) if bl['term']['k'] == 'switch' and paths.show_operand(li, bl['term']['op']) == 'Eq(arg3,0_usize)']
-        cut = [b for b, bl in enumerate(li.blocks) if bl['term']['k'] == 'switch' and paths.show_operand(li, bl['term']['op']) == 'arg5']
+            R.require(T('arg1.name') in txt and T('RrsetList::lookup(arg1.data.rrsets,Type(2_u16))') in txt, 'referral', li.gpath + '|names-this-node', li.where(ref[0][0]), 'child_zone = this node\'s name, ns_rrset = this node\'s NS RRset', 'the referral is built from %s' % txt)
+        lvl = [b for b, bl in enumerate(li.blocks) if bl['term']['k'] == 'switch' and paths.show_operand(li, bl['term']['op']) == T('Eq(arg3,0_usize)')]
+        cut = [b for b, bl in enumerate(li.blocks) if bl['term']['k'] == 'switch' and paths.show_operand(li, bl['term']['op']) == T('arg5')]
         ok = len(lvl) == 1 and len(cut) == 1 and li.dominates(cut[0], lvl[0])
         R.require(ok, 'referral', li.gpath + '|cut-test-before-level-test', li.where(), 'the delegation test precedes the level == 0 test', 'the level == 0 test is reachable without the delegation test')
         fd = [r for r in rs if r[1] == 'Found']
-        f0 = [r for r in fd if 'Eq(arg3,0_usize) not in [0]' in r[3]]
-        R.require(len(f0) == 1 and f0[0][2] == ['arg1.data', 'Option::None{}'], 'walk', li.gpath + '|level0-own-data', li.where(), 'level 0: this node\'s data, no source of synthesis', 'at level 0 lookup_impl returns %s' % (f0[0][2] if f0 else None))
-        rec = [r for r in rs if r[1].startswith('call') and 'lookup_impl' in r[1]]
-        ok = len(rec) == 1 and rec[0][2][1:] == ['arg2', 'Sub(arg3,1_usize)', 'arg4', 'false'] and rec[0][2][0].startswith('HashMap::get(arg1.children,Name::index(arg2,Sub(arg3,1_usize)))@Some.0') and \
-            'discr(HashMap::get(arg1.children,Name::index(arg2,Sub(arg3,1_usize)))) in [1]' in rec[0][3] and 'Eq(arg3,0_usize) in [0]' in rec[0][3]
-        R.require(ok, 'walk', li.gpath + '|descend', li.where(rec[0][0]) if rec else li.where(), 'descends into children[name[level-1]] with level-1, same search_below_cuts, at_apex = false', 'the recursive step is %s under %s' % (rec[0][2] if rec else None, rec[0][3] if rec else None))
+        f0 = [r for r in fd if T('Eq(arg3,0_usize) not in [0]') in r[3]]
+        R.require(len(f0) == 1 and f0[0][2] == T(['arg1.data', 'Option::None{}']), 'walk', li.gpath + '|level0-own-data', li.where(), 'level 0: this node\'s data, no source of synthesis', 'at level 0 lookup_impl returns %s' % (f0[0][2] if f0 else None))
+        CHILD = T('HashMap::get(arg1.children,Name::index(arg2,Sub(arg3,1_usize)))')
+        if recursive:
+            rec = [r for r in rs if r[1].startswith('call') and 'lookup_impl' in r[1]]
+            ok = len(rec) == 1 and rec[0][2][1:] == ['arg2', 'Sub(arg3,1_usize)', 'arg4', 'false'] and rec[0][2][0].startswith(CHILD + '@Some.0') and \
+                ('discr(%s) in [1]' % CHILD) in rec[0][3] and 'Eq(arg3,0_usize) in [0]' in rec[0][3]
+            R.require(ok, 'walk', li.gpath + '|descend', li.where(rec[0][0]) if rec else li.where(), 'descends into children[name[level-1]] with level-1, same search_below_cuts, at_apex = false', 'the recursive step is %s under %s' % (rec[0][2] if rec else None, rec[0][3] if rec else None))
+            n_out = len(rs)
+        else:
+            vals, ok = {}, True
+            for k, d in steps.items():
+                vals[k] = paths.show_operand(li, d[3]['rv']['op']) if d[3]['rv']['k'] == 'use' else ('%s(%s,%s)' % (d[3]['rv']['op'].replace('WithOverflow', ''), paths.show_operand(li, d[3]['rv']['a']), paths.show_operand(li, d[3]['rv']['b'])) if d[3]['rv']['k'] == 'bin' else '?')
+                g = paths.GuardList(paths.dom_guards(li, d[0], variants=False))
+                ok = ok and ('discr(%s) in [1]' % CHILD) in g and T('Eq(arg3,0_usize) in [0]') in g
+            ok = ok and vals[1].startswith(CHILD + '@Some.0') and vals[3] == T('Sub(arg3,1_usize)') and vals[5] == 'false'
+            # the child is looked up with the level of this round (before it is decremented), and after the step the
+            # walk goes round again: no return is reachable from the step without passing the loop head
+            gets = [b_ for b_, t in li.calls() if paths.show_operand(li, {'k': 'copy', 'pl': t['dest']}) == CHILD] if ok else []
+            ok = ok and len(gets) == 1 and li.dominates(gets[0], steps[3][0]) and not li.find_path(gets[0], lambda x: x == steps[3][0], avoid=()) is None
+            heads = {h for x in range(len(li.blocks)) if x in li.idom() for h in li.succs()[x] if li.dominates(h, x)}
+            last = max((d[0] for d in steps.values()), key=lambda b_: len(li.doms(b_)))
+            ok = ok and len(heads) == 1 and li.find_path(last, lambda x: x in li.ret_blocks(), avoid=heads) is None
+            R.require(ok, 'walk', li.gpath + '|descend', li.where(steps[1][0]), 'descends into children[name[level-1]] with level-1, same search_below_cuts, at_apex = false, then goes round again', 'the step of the walk assigns node/level/at_apex = %s' % vals)
+            n_out = len(rs) + 1
         fw = [r for r in fd if r not in f0]
-        miss = 'discr(HashMap::get(arg1.children,Name::index(arg2,Sub(arg3,1_usize)))) not in [1]'
-        ok = len(fw) == 1 and miss in fw[0][3] and 'discr(HashMap::get(arg1.children,Label::asterisk())) in [1]' in fw[0][3] and \
-            fw[0][2][0] == 'HashMap::get(arg1.children,Label::asterisk())@Some.0.data' and fw[0][2][1].startswith('Option::Some{') and 'HashMap::get(arg1.children,Label::asterisk())@Some.0.name' in fw[0][2][1]
+        miss = 'discr(%s) not in [1]' % CHILD
+        STAR = T('HashMap::get(arg1.children,Label::asterisk())')
+        ok = len(fw) == 1 and miss in fw[0][3] and ('discr(%s) in [1]' % STAR) in fw[0][3] and \
+            fw[0][2][0] == STAR + '@Some.0.data' and fw[0][2][1].startswith('Option::Some{') and (STAR + '@Some.0.name') in fw[0][2][1]
         R.require(ok, 'wildcard', li.gpath + '|only-when-child-missing', li.where(fw[0][0]) if fw else li.where(), '`*` child used only when the exact child is missing; data and source of synthesis come from the `*` node', 'the wildcard arm is %s under %s' % (fw[0][2] if fw else None, fw[0][3] if fw else None))
         nx = [r for r in rs if r[1] == 'NxDomain']
-        ok = len(nx) == 1 and miss in nx[0][3] and 'discr(HashMap::get(arg1.children,Label::asterisk())) not in [1]' in nx[0][3]
+        ok = len(nx) == 1 and miss in nx[0][3] and ('discr(%s) not in [1]' % STAR) in nx[0][3]
         R.require(ok, 'wildcard', li.gpath + '|nxdomain-when-both-missing', li.where(), 'NxDomain only when neither the child nor `*` exists', 'NxDomain is returned under %s' % (nx[0][3] if nx else None))
-        R.require(len(rs) == 5, 'walk', li.gpath + '|exits', li.where(), 'exactly five outcomes', 'lookup_impl has %d return sites' % len(rs))
+        R.require(n_out == 5, 'walk', li.gpath + '|exits', li.where(), 'exactly five outcomes', 'lookup_impl has %d outcomes' % n_out)
     # ---- (e)
     bv = enum_variants(F, Z + 'LookupBaseResult')
     for name, enum in (('lookup', 'db::zone::LookupResult'), ('lookup_addrs', 'db::zone::LookupAddrsResult'), ('lookup_all', 'db::zone::LookupAllResult')):
